@@ -122,6 +122,15 @@ def handle : List String → Verdict
         predfail := propertyHolds reg uses es,
         nontrivial := uses.length > 2, tags := [if reg.isEmpty then "plain-context" else "middleware"], sig := "hist" }
     | _, _, _ => .badOp
+  | ["alias", order, outH] =>
+    match hexField outH with
+    | some out =>
+      let fns := Bytes.countInfix (Bytes.ofString "function tooltip(") out
+      let rules := Bytes.countInfix (Bytes.ofString ".tooltip{") out
+      { predfail := if fns == 1 && rules == 1 then none else
+          some s!"a script and a CSS class with the same identifier ({order}): {fns} function definition(s) and {rules} rule(s) emitted, one of each expected",
+        nontrivial := true, tags := ["alias"], sig := "alias" }
+    | none => .badOp
   | ["scriptname", _aH, _bH, naH, nbH, sameFnS, sameBodyS] =>
     match hexField naH, hexField nbH with
     | some na, some nb =>
@@ -130,7 +139,8 @@ def handle : List String → Verdict
       { predfail := if na == nb && !sameFn then some "two script templates that are different functions get the same function name"
                     else none,
         nontrivial := na == nb, tags := ["scriptname"],
-        sig := "scriptname" ++ (if na == nb && !sameFn && sameBodyS == "1" then ";same-body-different-parameters" else "") }
+        sig := "scriptname" ++ (if na == nb && !sameFn && sameBodyS == "1" then ";same-body-different-parameters"
+                                else if na == nb && !sameFn then ";digest-collision" else "") }
     | _, _ => .badOp
   | ["stylesheet", regS, servedS] =>
     match natsDot regS, natsDot servedS with
